@@ -19,7 +19,8 @@ A *world* is a plain dict (JSON-serialisable, it goes into replay files verbatim
   realtime_backstep [at_call, ns] | None
   pid           int
   env_noise     {name: value}               irrelevant environment variables
-  shortread / eintr_read / eintr_open / shortwrite_obj / shortwrite_stdout   legal I/O behaviour
+  shortread / eintr_read / eintr_open / shortwrite_obj / shortwrite_stdout /
+  eintr_write_obj / eintr_write_stdout                                      legal I/O behaviour
   faults        [[directive, args...], ...] hard faults (fail_open, fail_read, fail_stat,
                                             fail_write_obj, fail_open_obj, fail_mkdir)
   crash         [class, ordinal] | None     SIGKILL at the k-th event of a class
@@ -66,6 +67,8 @@ REFERENCE_WORLD = {
     "eintr_open": 0,
     "shortwrite_obj": 0,
     "shortwrite_stdout": 0,
+    "eintr_write_obj": 0,
+    "eintr_write_stdout": 0,
     "faults": [],
     "crash": None,
 }
@@ -117,7 +120,7 @@ def plan_text(w, log_path):
         lines.append("realtime_backstep %d %d" % tuple(w["realtime_backstep"]))
     lines.append("pid %d" % w["pid"])
     for key in ("hole_brk", "hole_mmap", "shortread", "eintr_read", "eintr_open",
-                "shortwrite_obj", "shortwrite_stdout"):
+                "shortwrite_obj", "shortwrite_stdout", "eintr_write_obj", "eintr_write_stdout"):
         if w.get(key):
             lines.append("%s %d" % (key, w[key]))
     for f in w.get("faults") or []:
